@@ -7,6 +7,7 @@ import (
 	"fmt"
 	"go/ast"
 	"go/parser"
+	"go/printer"
 	"go/token"
 	"os"
 	"path/filepath"
@@ -380,6 +381,22 @@ func main() {
 		} else {
 			sb.WriteString(fmt.Sprintf("def %s : List String := [\"<missing>\"]\n", nm))
 		}
+	}
+
+	// source text of small decision functions (comments dropped, white space collapsed): the Lean counterparts of
+	// these are one-liners that were written from, and compared against, exactly this text
+	for _, fn := range []string{"otrV2.isGroupElement", "otrV3.isGroupElement", "isGroupElement", "isExponent", "policies.isOTREnabled", "policies.has",
+		"keyManagementContext.checkMessageCounter", "ExtractMPIs", "Conversation.processTLVs", "decideFlagFrom", "extractDataMessageFlag",
+		"lt", "lte", "gt", "gte", "Conversation.injectMessage", "Conversation.SetOurKeys", "defaultResendMessageTransform",
+		"macKeyHistory.addKeys", "Conversation.rotateKeys", "Conversation.maybeHeartbeat"} {
+		nm := "src_" + strings.ReplaceAll(fn, ".", "_")
+		txt := "<missing>"
+		if fd, ok := funcs[fn]; ok {
+			var b strings.Builder
+			_ = printer.Fprint(&b, fset, fd.Body)
+			txt = strings.Join(strings.Fields(b.String()), " ")
+		}
+		sb.WriteString(fmt.Sprintf("def %s : String := %q\n", nm, txt))
 	}
 
 	// writers of sensitive conversation fields, and non-init writes to package-level variables
